@@ -243,6 +243,25 @@ func checkC11(c *Ctx) {
 	}
 	c.Expect("R3", 3)
 
+	// the routing helpers skipped above: their index/slice safety is the C12 decision (crc16 fold, hash-tag tree)
+	c.withAlias(map[string]string{"O1": "R1", "O2": "R1", "O3": "R1", "O4": "R1", "O5": "R1"}, func() {
+		if tagFn := p.Func(redisPkg, "hashtag"); tagFn != nil {
+			checkHashTag(c, tagFn)
+		} else {
+			c.Unresolved("O4", "hashtag")
+		}
+	})
+	// nobody answers = wedged: exactly-once ownership of the requests handled in the backend-reply cone
+	c.Rule("R8", "every request handled by a backend-reply callback is completed exactly once on every path (E-own restricted to the input cone; shared with C02.R1)")
+	func() {
+		e := runOwn(c)
+		inCone := map[*ssa.Function]bool{}
+		for _, f := range cone {
+			inCone[f] = true
+		}
+		reportOwn(c, e, "R8", func(fn *ssa.Function) bool { return inCone[topFn(fn)] })
+	}()
+
 	// ---------------- R4
 	checkRecursion(c, cone)
 
